@@ -65,6 +65,8 @@ type Task struct {
 	parkKind  int
 	parkSite  string
 	lockDepth int
+	held      [16]tryLocker // simulated locks the task holds (most recent last)
+	nHeld     int
 	lockEpoch uint64 // unlock epoch seen at the last failed TryLock
 	goid      uint64
 	prio      int // PCT priority
@@ -531,9 +533,21 @@ func taskMain(s *Sim, tk *Task, fn func()) {
 func (s *Sim) taskExit(tk *Task, r interface{}) {
 	if _, ok := r.(CrashHere); ok {
 		r = nil // the task was killed at a crash point: not a failure of the program
-		if tk.ID == 0 {
-			tk.ID = 0
+		// A killed process takes its locks with it. Deferred unlocks have run while the task unwound;
+		// whatever it still holds (a lock released by an explicit Unlock further down the killed code
+		// path) is released here, or the next simulated process in this OS process could never take it.
+		for tk.nHeld > 0 {
+			tk.nHeld--
+			m := tk.held[tk.nHeld]
+			tk.held[tk.nHeld] = nil
+			if m.TryLock() {
+				m.Unlock() // it was free after all (released on another path): leave it free
+			} else {
+				m.Unlock()
+			}
+			s.unlockEpch++
 		}
+		tk.lockDepth = 0
 	}
 	if r != nil {
 		if _, ok := r.(stopRun); !ok {
